@@ -287,12 +287,14 @@ class Linked(SubCheck):
                 subs = [c for c in itertools.product((0, 1), repeat=V) if sum(c) >= 1]
                 for c0 in subs:
                     for c1 in subs:
+                        if sum(c0) + sum(c1) > (3 if (tier == "quick" or V == 3) else 4):
+                            continue
                         out.append(dict(V=V, psidx=list(psidx), cover=[list(c0), list(c1)]))
         return out
 
     def bounds(self, tier):
-        return ("two reads + one variant-free alignment, V %s diploid variants in <= 2 phase sets, every covered subset per read; phased alleles 0|1; symbolic: observed alleles, qualities 0..3, "
-                "barcodes (same / different / second read without / same with --ignore-linked-read), reference starts and the distance cut-off (0..6), order of the two reads" % ("= 2" if tier == "quick" else "<= 3"))
+        return ("two reads + one variant-free alignment, V %s diploid variants in <= 2 phase sets, every covered subset per read with at most %d covered variants in total; phased alleles 0|1; symbolic: observed alleles, qualities 0..3, "
+                "barcodes (same / different / second read without / same with --ignore-linked-read), reference starts and the distance cut-off (0..6), order of the two reads" % (("= 2", 3) if tier == "quick" else ("<= 3", 4)))
 
     setup = Decide.setup
     sym_impl = Decide.sym_impl
